@@ -443,7 +443,7 @@ Section CKM.
     | 2 => smul 3 (smul 3 ck_u1p ck_u2) ck_u3
     | _ => smul 3 (smul 3 ck_u1 ck_u2p2) ck_u3
     end.
-  (* the repaired gradient proposed in fixes/D14.patch: correct derivative matrices, and
+  (* the repaired gradient proposed in fixes/C18-F1.patch: correct derivative matrices, and
      for CKMdg the chain-rule sign of sin(-p), cos(-p), exp(-/+ i p3) *)
   Definition sg (x : cexpr) : cexpr := if neg then - x else x.
   Definition fx_u1p : smat := M [[0;0;0]; [0; sg (- s3); sg k3]; [0; sg (- k3); sg (- s3)]].
